@@ -175,3 +175,44 @@ func (o *Once) Do(f func()) {
 		f()
 	}
 }
+
+// Pool replaces sync.Pool in instrumented files (rule R1). sync.Pool is a source of
+// nondeterminism (per-P caches, cleared by the garbage collector) and a package-level pool
+// carries objects from one simulated run into the next one of the same OS process, so that a
+// run could not be replayed in a fresh process. This one is LIFO, and empty at the start of
+// every run.
+type Pool struct {
+	New func() any
+
+	mu    sync.Mutex
+	world *World
+	items []any
+}
+
+func (p *Pool) Get() any {
+	p.mu.Lock()
+	if w := Cur(); w != p.world {
+		p.world, p.items = w, nil
+	}
+	var x any
+	if n := len(p.items); n > 0 {
+		x, p.items = p.items[n-1], p.items[:n-1]
+	}
+	p.mu.Unlock()
+	if x == nil && p.New != nil {
+		x = p.New()
+	}
+	return x
+}
+
+func (p *Pool) Put(x any) {
+	if x == nil {
+		return
+	}
+	p.mu.Lock()
+	if w := Cur(); w != p.world {
+		p.world, p.items = w, nil
+	}
+	p.items = append(p.items, x)
+	p.mu.Unlock()
+}
